@@ -7,6 +7,7 @@ Usage (through /verif/check):
 Exit codes: 0 held (KNOWN-FINDING lines possible), 1 violation, 2 harness error.
 """
 import argparse
+import copy
 import hashlib
 import importlib
 import json
@@ -205,10 +206,14 @@ def hyp_drive(ctx, strategy, judge, n, shrink=None):
                   report_multiple_bugs=False, suppress_health_check=list(HealthCheck),
                   phases=phases, print_blob=False)
 
+    early = []
+
     @hypothesis.seed(ctx.shard_seed)
     @st
     @given(strategy)
     def test(case):
+        if len(early) < 25 and not col.frozen:
+            early.append(copy.deepcopy(case))
         try:
             judge(case, col)
         except Violation:
@@ -217,6 +222,19 @@ def hyp_drive(ctx, strategy, judge, n, shrink=None):
 
     try:
         test()
+        # the same process has now made thousands of other calls: the first cases must still be judged the same
+        # (history dependence inside a long-lived process is a violation of every per-input property)
+        col.frozen = True
+        try:
+            for case in early:
+                try:
+                    judge(copy.deepcopy(case), col)
+                except Violation as v:
+                    v.kind = v.kind + "_when_rejudged_after_other_calls"
+                    raise v
+        finally:
+            col.frozen = False
+        col.count("early_cases_rejudged_at_end", len(early))
     except Violation as v:
         col.frozen = False
         col.violation(v)
